@@ -346,7 +346,12 @@ impl FieldMap {
             )));
         }
         let mut ki: HashMap<config::FieldKey, Field> = HashMap::with_capacity(config_mapping.len());
-        for (&k, pos) in config_mapping {
+        // config_mapping is a HashMap: visit the fields in a stable order, otherwise which
+        // invalid template gets reported depends on the hash order of the process.
+        let mut mapping: Vec<(config::FieldKey, &config::FieldPos)> =
+            config_mapping.iter().map(|(k, pos)| (*k, pos)).collect();
+        mapping.sort_unstable_by_key(|(k, _)| *k);
+        for (k, pos) in mapping {
             let field = match &pos {
                 config::FieldPos::Index(i) => Ok(Field::ColumnIndex(i.as_zero_based())),
                 config::FieldPos::Label(label) => hm
